@@ -151,7 +151,7 @@ func childOf(r *vcoq.Rand, md protoreflect.MessageDescriptor, p string) (string,
 func (g *c05) updateMask(stored, written proto.Message) (*fieldmaskpb.FieldMask, vmsg.PathKind) {
 	r := g.r
 	md := stored.ProtoReflect().Descriptor()
-	switch r.Intn(12) {
+	switch r.Intn(13) {
 	case 0:
 		return nil, vmsg.PathValid
 	case 1:
@@ -184,6 +184,19 @@ func (g *c05) updateMask(stored, written proto.Message) (*fieldmaskpb.FieldMask,
 			return &fieldmaskpb.FieldMask{Paths: []string{p, pp}}, vmsg.PathValid
 		}
 		return &fieldmaskpb.FieldMask{Paths: []string{p}}, vmsg.PathValid
+	case 10: // sibling fields one of whose names is a string prefix of the other's
+		if pairs := vmsg.PrefixNamedPairs(md, 1); len(pairs) > 0 {
+			pr := pairs[r.Intn(len(pairs))]
+			switch r.Intn(3) {
+			case 0:
+				return &fieldmaskpb.FieldMask{Paths: []string{pr[1]}}, vmsg.PathValid
+			case 1:
+				return &fieldmaskpb.FieldMask{Paths: []string{pr[0], pr[1]}}, vmsg.PathValid
+			default:
+				return &fieldmaskpb.FieldMask{Paths: []string{pr[1], pr[0]}}, vmsg.PathValid
+			}
+		}
+		return &fieldmaskpb.FieldMask{Paths: []string{g.pathIn(stored, written)}}, vmsg.PathValid
 	default: // corrupted
 		kinds := []vmsg.PathKind{vmsg.PathUnknown, vmsg.PathThroughScalar, vmsg.PathThroughMap, vmsg.PathThroughRepScalar,
 			vmsg.PathThroughRepMsg, vmsg.PathEmptySegment}
@@ -216,7 +229,7 @@ func (g *c05) writableMask(stored, written proto.Message, um *fieldmaskpb.FieldM
 			}
 		}
 	}
-	switch c := r.Intn(11); {
+	switch c := r.Intn(12); {
 	case c <= 2:
 		return nil
 	case c == 3:
@@ -257,6 +270,20 @@ func (g *c05) writableMask(stored, written proto.Message, um *fieldmaskpb.FieldM
 			ps = append(ps, ch)
 		}
 		return &fieldmaskpb.FieldMask{Paths: ps}
+	case c == 9 && len(ups) > 0:
+		// the writable path is a sibling whose NAME is a string prefix of the update path's name (or the
+		// other way round): not writable, however similar the strings
+		for _, pr := range vmsg.PrefixNamedPairs(md, 1) {
+			for _, u := range ups {
+				if u == pr[1] || strings.HasPrefix(u, pr[1]+".") {
+					return &fieldmaskpb.FieldMask{Paths: []string{pr[0]}}
+				}
+				if u == pr[0] {
+					return &fieldmaskpb.FieldMask{Paths: []string{pr[1]}}
+				}
+			}
+		}
+		return &fieldmaskpb.FieldMask{Paths: []string{g.pathIn(stored, written)}}
 	default: // unrelated random
 		n := r.Range(1, 3)
 		var ps []string
@@ -351,15 +378,19 @@ func (g *c05) direct(stored, written proto.Message, um, wm, rm *fieldmaskpb.Fiel
 	g.o.Add(vcoq.Case{Coq: term, JSON: js, Key: term, NonTrivial: code == 0 && um != nil && len(um.Paths) > 0, Tags: tags})
 }
 
-func (g *c05) viaValue(stored, written proto.Message, allw bool, resw, more, um, rm *fieldmaskpb.FieldMask, mtag, rtag vmsg.PathKind) {
+func (g *c05) viaValue(stored, written proto.Message, allw bool, resw, more, um, moreu, rm *fieldmaskpb.FieldMask, mtag, rtag vmsg.PathKind) {
 	js := map[string]any{"op": "Value.Set", "type": string(stored.ProtoReflect().Descriptor().FullName()),
 		"stored": vmsg.JSON(stored), "written": vmsg.JSON(written), "update_mask": vmsg.MaskJSON(um),
-		"writable": vmsg.MaskJSON(resw), "more_writable": vmsg.MaskJSON(more), "all_writable": allw, "reset_mask": vmsg.MaskJSON(rm)}
-	umc, reswc, morec, rmc := cloneMask(um), cloneMask(resw), cloneMask(more), cloneMask(rm)
+		"writable": vmsg.MaskJSON(resw), "more_writable": vmsg.MaskJSON(more), "more_update": vmsg.MaskJSON(moreu), "all_writable": allw, "reset_mask": vmsg.MaskJSON(rm)}
+	umc, reswc, morec, rmc, moreuc := cloneMask(um), cloneMask(resw), cloneMask(more), cloneMask(rm), cloneMask(moreu)
 	init := proto.Clone(stored)
 	src := proto.Clone(written)
 	v := resource.NewValue(resource.WithInitialValue(init), resource.WithWritableFields(reswc))
 	opts := []resource.WriteOption{resource.WithUpdateMask(umc)}
+	if moreu != nil {
+		// after WithUpdateMask: adds paths to a non-nil update mask, leaves a nil one ("all fields") alone
+		opts = append(opts, resource.WithMoreUpdateMask(moreuc))
+	}
 	if rm != nil {
 		opts = append(opts, resource.WithResetMask(rmc))
 	}
@@ -406,7 +437,7 @@ func (g *c05) viaValue(stored, written proto.Message, allw bool, resw, more, um,
 	} else {
 		tags = append(tags, "result:panic")
 	}
-	if maskChanged(um, umc) || maskChanged(resw, reswc) || maskChanged(more, morec) || maskChanged(rm, rmc) {
+	if maskChanged(um, umc) || maskChanged(resw, reswc) || maskChanged(more, morec) || maskChanged(rm, rmc) || maskChanged(moreu, moreuc) {
 		g.o.Directs = append(g.o.Directs, vcoq.Direct{What: "Value.Set changed a caller's field mask", Class: "mask-mutated:Value.Set", Replay: js})
 	}
 	eff := resw
@@ -420,11 +451,22 @@ func (g *c05) viaValue(stored, written proto.Message, allw bool, resw, more, um,
 	if more != nil {
 		tags = append(tags, "opt:more-writable")
 	}
-	tags = append(tags, relationClass(um, eff)...)
-	tags = append(tags, selfClass(um, "update:")...)
+	if moreu != nil {
+		if um == nil {
+			tags = append(tags, "opt:more-update+nil-update")
+		} else {
+			tags = append(tags, "opt:more-update")
+		}
+	}
+	umAll := um
+	if um != nil && moreu != nil {
+		umAll = &fieldmaskpb.FieldMask{Paths: append(append([]string{}, um.Paths...), moreu.Paths...)}
+	}
+	tags = append(tags, relationClass(umAll, eff)...)
+	tags = append(tags, selfClass(umAll, "update:")...)
 	tags = append(tags, selfClass(rm, "reset:")...)
 	tags = append(tags, "update-tag:"+mtag.String())
-	term := vcoq.App("KSet", vmsg.TypeName(stored), boolCoq(allw), vmsg.Mask(resw), vmsg.Mask(more), vmsg.Mask(um), vmsg.Mask(rm),
+	term := vcoq.App("KSet", vmsg.TypeName(stored), boolCoq(allw), vmsg.Mask(resw), vmsg.Mask(more), vmsg.Mask(um), vmsg.Mask(moreu), vmsg.Mask(rm),
 		vcoq.Int(int(mtag)), vcoq.Int(int(rtag)), vmsg.Value(stored), vmsg.Value(written), vcoq.Z(code), obs)
 	g.o.Add(vcoq.Case{Coq: term, JSON: js, Key: term, NonTrivial: code == 0 && um != nil && len(um.Paths) > 0, Tags: tags})
 }
@@ -466,7 +508,19 @@ func genC05(o *vcoq.Out, r *vcoq.Rand, tier string) error {
 		case 2:
 			more = &fieldmaskpb.FieldMask{}
 		}
-		g.viaValue(stored, written, r.Chance(10), wm, more, um, rm, mtag, rtag)
+		var moreu *fieldmaskpb.FieldMask
+		if r.Chance(35) {
+			// extra update paths (valid by construction), with nil and non-nil update masks alike
+			moreu = &fieldmaskpb.FieldMask{Paths: []string{g.pathIn(stored, written)}}
+			if r.Chance(30) {
+				moreu.Paths = append(moreu.Paths, g.pathIn(stored, written))
+			}
+			if r.Chance(40) {
+				um = nil
+				mtag = vmsg.PathValid
+			}
+		}
+		g.viaValue(stored, written, r.Chance(10), wm, more, um, moreu, rm, mtag, rtag)
 	}
 	// the inputs of the defects repaired in pkg/masks/update.go, always present
 	fm := func(p ...string) *fieldmaskpb.FieldMask { return &fieldmaskpb.FieldMask{Paths: p} }
@@ -488,7 +542,11 @@ func genC05(o *vcoq.Out, r *vcoq.Rand, tier string) error {
 		{fm("default_int32"), nil, fm(dfm, dfm+".c"), wr},                        // parent+child reset mask
 	} {
 		g.direct(st, f.w, f.um, f.wm, f.rm, vmsg.PathValid, vmsg.PathValid)
-		g.viaValue(st, f.w, false, f.wm, nil, f.um, f.rm, vmsg.PathValid, vmsg.PathValid)
+		g.viaValue(st, f.w, false, f.wm, nil, f.um, nil, f.rm, vmsg.PathValid, vmsg.PathValid)
 	}
+	// nil update mask + extra update paths: still "all writable fields"
+	g.viaValue(st, wr, false, nil, nil, nil, fm("default_int32"), nil, vmsg.PathValid, vmsg.PathValid)
+	g.viaValue(st, wr, false, fm(dfm), nil, nil, fm(dfm+".c"), nil, vmsg.PathValid, vmsg.PathValid)
+	g.viaValue(st, wr, false, nil, nil, fm(dfm+".c"), fm("default_int32", dfm+".c"), nil, vmsg.PathValid, vmsg.PathValid)
 	return nil
 }
